@@ -1085,3 +1085,27 @@ def rule_mix(c, rules=(("default", 1), ("default", 4)), shared=True, itype="cell
         t = g * R(v) * measure(itype, **kw)
         form = t if form is None else form + t
     return form
+
+
+# ============================================================================ C13 near-miss builders
+@builder
+def nearmiss(c, literal=1.5, index=0, which_coef=0, degree=1, power=2, swap_creation=False, kind="form"):
+    """A small family of forms/expressions differing in exactly one feature (literal, component index,
+    which of two same-space coefficients is used, element degree, integer power).  swap_creation changes only the
+    creation order (object counters) of the two coefficients: the request is the same up to renumbering."""
+    V = c.V("Lagrange", degree)
+    W = c.V("Lagrange", 1, shape=(c.gdim,))
+    if swap_creation:
+        g = Coefficient(V)
+        f = Coefficient(V)
+    else:
+        f = Coefficient(V)
+        g = Coefficient(V)
+    q = Coefficient(W)
+    fs = (f, g)
+    a, b_ = fs[which_coef], fs[1 - which_coef]
+    e = literal * a ** power * q[index] + sin(b_)
+    if kind == "form":
+        v = TestFunction(V)
+        return inner(e, v) * dx
+    return (e * grad(a), _ref_points(c.cell, "interior", 3))
